@@ -112,7 +112,8 @@ void fail(Verdict &v, const std::string &cls, const std::string &msg, const std:
 
 bool is_pipeline_event(uint16_t k)
 {
-    return k == E_ENTRY || k == E_EXIT || k == E_H_IN || k == E_H_OUT || k == E_DELIVER || k == E_GATE_WAIT;
+    return k == E_ENTRY || k == E_EXIT || k == E_H_IN || k == E_H_OUT || k == E_DELIVER || k == E_GATE_WAIT
+            || k == E_PROBE_IN || k == E_PROBE_OUT;
 }
 int pipeline_event_cid(const sim::Event &e)
 {
@@ -165,8 +166,16 @@ Verdict judge(const Plan &plan, const sim::Shm *shm, const ChildExit &ex, const 
     } else if (shm->status == sim::ST_DONE || shm->status == sim::ST_EXITED) {
         complete = true;
     } else if (shm->status == sim::ST_ABORT) {
-        // expected for C11 (qFatal); elsewhere it is an unplanned death
-        if (plan.prop != "C11" && plan.prop != "C19")
+        // expected for C11 (qFatal) and for plans that end in a fatal message; elsewhere an unplanned death
+        bool planned = false;
+        for (auto &ops : plan.producers)
+            for (auto &o : ops)
+                if (o.kind == "fatal")
+                    planned = true;
+        for (auto &o : plan.main_ops)
+            if (o.kind == "fatal")
+                planned = true;
+        if (plan.prop != "C11" && plan.prop != "C19" && !planned)
             fail(v, "crash", "abort() called");
     } else {
         fail(v, "crash", "child exited with code " + std::to_string(ex.code) + " before finishing");
@@ -200,11 +209,11 @@ Verdict judge(const Plan &plan, const sim::Shm *shm, const ChildExit &ex, const 
     int nested_calls = 0;
     for (uint32_t i = 0; i < N; i++) {
         const sim::Event &e = shm->events[i];
-        if (e.kind == E_INVOKE && ((int)e.a >> 12) == kNestedProducer && !calls.count((int)e.a)) {
+        if (e.kind == E_INVOKE && ((int)e.a >> 16) == kNestedProducer && !calls.count((int)e.a)) {
             Call c;
             c.cid = (int)e.a;
             c.producer = kNestedProducer;
-            c.opidx = (int)e.a & 0xfff;
+            c.opidx = (int)e.a & 0xffff;
             c.op = &nested_op();
             c.text = expected_text(c.producer, c.opidx, *c.op);
             calls[c.cid] = c;
@@ -512,33 +521,33 @@ Verdict judge(const Plan &plan, const sim::Shm *shm, const ChildExit &ex, const 
                     cls = "lost";
                 fail(v, cls,
                      "delivery #" + std::to_string(i) + ": expected sink " + std::to_string(x.sink) + " message "
-                             + std::to_string(x.cid >> 12) + "." + std::to_string(x.cid & 0xfff) + ", got sink "
-                             + std::to_string(a.sink) + " message " + std::to_string(a.cid >> 12) + "."
-                             + std::to_string(a.cid & 0xfff));
+                             + std::to_string(x.cid >> 16) + "." + std::to_string(x.cid & 0xffff) + ", got sink "
+                             + std::to_string(a.sink) + " message " + std::to_string(a.cid >> 16) + "."
+                             + std::to_string(a.cid & 0xffff));
                 break;
             }
             std::string field;
             std::string got = a.c.formatted ? a.c.fmt : a.c.message;
             if (x.formatted != a.c.formatted || !match_with_field(x.text, 0, got, 0, &field)) {
                 fail(v, "wrong-text",
-                     "sink " + std::to_string(x.sink) + " message " + std::to_string(x.cid >> 12) + "."
-                             + std::to_string(x.cid & 0xfff) + ": expected '" + clip(x.text) + "' got '" + clip(got)
+                     "sink " + std::to_string(x.sink) + " message " + std::to_string(x.cid >> 16) + "."
+                             + std::to_string(x.cid & 0xffff) + ": expected '" + clip(x.text) + "' got '" + clip(got)
                              + "'");
                 break;
             }
             if (x.attrs != a.c.attrs) {
                 fail(v, "wrong-attrs",
-                     "sink " + std::to_string(x.sink) + " message " + std::to_string(x.cid >> 12) + "."
-                             + std::to_string(x.cid & 0xfff) + ": expected attributes '" + clip(x.attrs) + "' got '"
+                     "sink " + std::to_string(x.sink) + " message " + std::to_string(x.cid >> 16) + "."
+                             + std::to_string(x.cid & 0xffff) + ": expected attributes '" + clip(x.attrs) + "' got '"
                              + clip(a.c.attrs) + "'");
                 break;
             }
             // (messages logged by a logger thread - producer 62 - come from a different thread in every
             // move/reset cycle; Qt's own messages have no producer: no tag obligations for either)
-            if (x.pretty_node >= 0 && (x.cid >> 12) != kNestedProducer && x.cid >= 0) {
+            if (x.pretty_node >= 0 && (x.cid >> 16) != kNestedProducer && x.cid >= 0) {
                 std::string tag = (field.empty() || field[0] == ' ') ? "0" : field;
                 auto &m = tags[x.pretty_node];
-                int prod = x.cid >> 12;
+                int prod = x.cid >> 16;
                 auto it = m.find(prod);
                 if (it == m.end())
                     m[prod] = tag;
@@ -554,12 +563,12 @@ Verdict judge(const Plan &plan, const sim::Shm *shm, const ChildExit &ex, const 
                 fail(v, "lost",
                      "expected " + std::to_string(model.out.size()) + " deliveries, got "
                              + std::to_string(actual.size()) + "; first missing: sink " + std::to_string(x.sink)
-                             + " message " + std::to_string(x.cid >> 12) + "." + std::to_string(x.cid & 0xfff));
+                             + " message " + std::to_string(x.cid >> 16) + "." + std::to_string(x.cid & 0xffff));
             } else {
                 const Act &a = actual[model.out.size()];
                 fail(v, "duplicate",
                      "unexpected extra delivery: sink " + std::to_string(a.sink) + " message "
-                             + std::to_string(a.cid >> 12) + "." + std::to_string(a.cid & 0xfff));
+                             + std::to_string(a.cid >> 16) + "." + std::to_string(a.cid & 0xffff));
             }
         }
         // thread tags must differ between producers that were alive at the same time
@@ -660,9 +669,14 @@ Verdict judge(const Plan &plan, const sim::Shm *shm, const ChildExit &ex, const 
 
     if (plan.prop == "C03") {
         int wtid = worker_tids.empty() ? -1 : worker_tids[0].second;
-        if (wtid < 0 && complete && !calls.empty())
+        bool plan_moves = false;
+        for (auto &o : plan.main_ops)
+            if (o.kind == "move")
+                plan_moves = true;
+        if (wtid < 0 && plan_moves && !calls.empty())
             fail(v, "not-async", "moveToOwnThread() did not start a worker thread");
-        for (uint32_t i = 0; i < N && v.ok; i++) {
+        // (a plan without a move - only a minimiser can make one - has no logger thread to judge against)
+        for (uint32_t i = 0; i < N && v.ok && wtid >= 0; i++) {
             const sim::Event &e = shm->events[i];
             if (is_pipeline_event(e.kind) && e.tid != wtid)
                 fail(v, "wrong-thread",
@@ -670,6 +684,24 @@ Verdict judge(const Plan &plan, const sim::Shm *shm, const ChildExit &ex, const 
                              + std::to_string(e.tid) + " (" + (e.tid == 0 ? "main" : "a producer")
                              + "), not on the logger thread T" + std::to_string(wtid));
         }
+        // a flush of the sinks is handler work too
+        int flushes = 0;
+        for (uint32_t i = 0; i < N && v.ok; i++) {
+            const sim::Event &e = shm->events[i];
+            if (e.kind != E_FLUSH_IN)
+                continue;
+            flushes++;
+            long stop_end = -1;
+            for (auto &w : stops)
+                if (w.end >= 0)
+                    stop_end = std::max(stop_end, w.end);
+            bool async_now = wtid >= 0 && (stop_end < 0 || (long)i < stop_end);
+            if (async_now && e.tid != wtid)
+                fail(v, "wrong-thread",
+                     "the sinks were flushed on thread T" + std::to_string(e.tid)
+                             + " (a logging thread) while the logger thread T" + std::to_string(wtid) + " owns them");
+        }
+        v.probes["sink_flushes_observed"] = flushes;
         int gate_waits = 0, ret_before_entry = 0;
         for (uint32_t i = 0; i < N; i++)
             if (shm->events[i].kind == E_GATE_WAIT)
